@@ -214,6 +214,22 @@ pub fn generate(rng: &mut Rng, thorough: bool) -> Vec<String> {
             v.push(format!("tzdb_zstr {name} {}", *t as i128 * 1_000_000_000 + sub));
             if rng.chance(1, 2) { v.push(format!("tzdb_istr {name} {}", *t as i128 * 1_000_000_000 + sub)); }
         }
+        // local readings with a sub-second part in the last and first second around transitions, under both
+        // neighbouring offsets (also before 1970, where flooring and truncating an instant to its second differ)
+        {
+            let n = z.trans.len();
+            let idx: Vec<usize> = (0..n.min(4)).chain(n.saturating_sub(3)..n).chain((0..n).filter(|k| z.trans[*k].0 < 0).rev().take(3)).collect();
+            for k in idx {
+                let (t, ti) = z.trans[k];
+                let cur = z.types.get(ti).map(|x| x.0).unwrap_or(0);
+                let prev = if k == 0 { z.types.first().map(|x| x.0).unwrap_or(0) } else { z.types.get(z.trans[k - 1].1).map(|x| x.0).unwrap_or(0) };
+                for off in [prev, cur] {
+                    for (dt, sub) in [(-1i64, "500 0 0"), (-1, "999 999 999"), (0, "0 0 1"), (0, "500 0 0"), (-3600, "250 0 0")] {
+                        v.push(format!("tzdb_locns {name} {} {sub}", ymdhms(t + dt + off)));
+                    }
+                }
+            }
+        }
         // local date-times: images of the sampled instants under the neighbouring offsets
         for t in instants.iter().step_by(3) {
             let off = z.types.get(rng.below(z.types.len() as u64) as usize).map(|x| x.0).unwrap_or(0);
@@ -277,7 +293,7 @@ pub fn generate_slice(rng: &mut Rng, thorough: bool) -> Vec<String> {
             let mut it = l.split(' ');
             let op = it.next().unwrap_or("");
             let zone = it.next().unwrap_or("");
-            matches!(op, "tzdb_loc" | "tzdb_off" | "tzdb_zstr" | "tzdb_istr" | "tzdb_offns") && ZONES.contains(&zone)
+            matches!(op, "tzdb_loc" | "tzdb_locns" | "tzdb_off" | "tzdb_zstr" | "tzdb_istr" | "tzdb_offns") && ZONES.contains(&zone)
         })
         .collect();
     // keep every local-reading and string line, thin the offset lines down to the cap
@@ -304,6 +320,18 @@ pub fn eval(t: &[&str]) -> Option<String> {
             let r = p.get_named_tz_epoch_nanoseconds(t[1], iso(&t[2..8]));
             Some(render(r, |v| {
                 let mut xs: Vec<i128> = v.iter().map(|e| e.as_i128().div_euclid(1_000_000_000)).collect();
+                xs.sort();
+                if xs.is_empty() { "-".to_string() } else { xs.iter().map(|x| x.to_string()).collect::<Vec<_>>().join(" ") }
+            }))
+        }
+        "tzdb_locns" => {
+            // a local reading with a sub-second part (ms us ns): the instants in nanoseconds
+            let p = FsTzdbProvider::default();
+            let date = temporal_rs::verif_hooks::iso_date_balance(i(t[2]) as i32, i(t[3]) as i32, i(t[4]) as i32);
+            let time = IsoTime::new(i(t[5]) as u8, i(t[6]) as u8, i(t[7]) as u8, i(t[8]) as u16, i(t[9]) as u16, i(t[10]) as u16, temporal_rs::options::ArithmeticOverflow::Constrain).unwrap();
+            let r = p.get_named_tz_epoch_nanoseconds(t[1], IsoDateTime::new(date, time).unwrap());
+            Some(render(r, |v| {
+                let mut xs: Vec<i128> = v.iter().map(|e| e.as_i128()).collect();
                 xs.sort();
                 if xs.is_empty() { "-".to_string() } else { xs.iter().map(|x| x.to_string()).collect::<Vec<_>>().join(" ") }
             }))
